@@ -159,7 +159,12 @@ func execRoundTrip(c rtCase) *evid.Failure {
 		pm.SetToken(lm.Token)
 		pm.ResetOptionsTo(lm.Options)
 		if len(lm.Payload) > 0 {
-			pm.SetBody(bytes.NewReader(lm.Payload))
+			if round == 0 {
+				pm.SetBody(bytes.NewReader(lm.Payload))
+			} else {
+				// a body that is streamed: io.Reader allows a Read to return fewer bytes than asked for
+				pm.SetBody(&chunkReader{Reader: bytes.NewReader(lm.Payload), max: 1 + len(lm.Payload)/3})
+			}
 		}
 		if datagram {
 			pm.SetType(lm.Type)
@@ -217,6 +222,19 @@ func execRoundTrip(c rtCase) *evid.Failure {
 		p.ReleaseMessage(rm)
 	}
 	return nil
+}
+
+// chunkReader is an io.ReadSeeker whose Read returns at most max bytes at a time.
+type chunkReader struct {
+	*bytes.Reader
+	max int
+}
+
+func (c *chunkReader) Read(p []byte) (int, error) {
+	if len(p) > c.max {
+		p = p[:c.max]
+	}
+	return c.Reader.Read(p)
 }
 
 func genRT(stream bool) func(t *rapid.T) rtCase {
